@@ -216,6 +216,7 @@ def instance_permutations(rep, pa, rng, insts, limit):
     recs, metas = [], []
     if len(insts) > limit:
         insts = rng.sample(insts, limit)
+    jobs = []          # (instance entry, permutation or None)
     for p in insts:
         inst = p["inst"]
         if sum(1 for k in inst["sizes"] if k > 0) < 2:
@@ -223,24 +224,31 @@ def instance_permutations(rep, pa, rng, insts, limit):
         perms = list(itertools.permutations(range(inst["n"])))[1:]
         if len(perms) > 5:
             perms = rng.sample(perms, 5)
-        c0, d0 = ar.realise_table(pa, inst, align.G_SCALE)
-        try:
-            base = c0.get_best_alignment(d0).disorder
-        except Exception as ex:
-            rep.violation("invariance.raises", {"exception": repr(ex), "instance": inst})
-            continue
-        for perm in perms:
-            pi = permute_instance(inst, perm)
-            c1, d1 = ar.realise_table(pa, pi, align.G_SCALE)
-            meta = {"layer": "L2", "instance": inst, "annotator_order": list(perm), "spec_optimum_cost": p["result"]["pruned"], "transform": "permute"}
+        jobs.append((p, None))
+        jobs += [(p, perm) for perm in perms]
+    # few dissimilarity objects for many instances (see alignrec.realise_batch)
+    realised = ar.realise_batch(pa, [p["inst"] if perm is None else permute_instance(p["inst"], perm) for p, perm in jobs], align.G_SCALE)
+    base = None
+    for (p, perm), (c1, d1) in zip(jobs, realised):
+        inst = p["inst"]
+        if perm is None:
             try:
-                other = c1.get_best_alignment(d1).disorder
+                base = c1.get_best_alignment(d1).disorder
             except Exception as ex:
-                rep.violation("invariance.raises", {"exception": repr(ex), "meta": meta})
-                continue
-            recs.append({"kind": "permute", "c": [1, 1], "base": fxv(base), "other": fxv(other), "hasgamma": 0, "gbase": 0, "gother": 0})
-            metas.append(meta)
-            rep.case(key=json.dumps([inst["sizes"], inst["D"], list(perm)]))
+                rep.violation("invariance.raises", {"exception": repr(ex), "instance": inst})
+                base = None
+            continue
+        if base is None:
+            continue
+        meta = {"layer": "L2", "instance": inst, "annotator_order": list(perm), "spec_optimum_cost": p["result"]["pruned"], "transform": "permute"}
+        try:
+            other = c1.get_best_alignment(d1).disorder
+        except Exception as ex:
+            rep.violation("invariance.raises", {"exception": repr(ex), "meta": meta})
+            continue
+        recs.append({"kind": "permute", "c": [1, 1], "base": fxv(base), "other": fxv(other), "hasgamma": 0, "gbase": 0, "gother": 0})
+        metas.append(meta)
+        rep.case(key=json.dumps([inst["sizes"], inst["D"], list(perm)]))
     return recs, metas
 
 
